@@ -173,3 +173,11 @@ func (db *DB) VerifCurrentSegment() (string, bool) {
 	}
 	return cur.name, db.datalog.segments[cur.id] == cur
 }
+
+// VerifQueued returns the number of items buffered in the iterator (fetched from the index but
+// not yet returned by Next).
+func (it *ItemIterator) VerifQueued() int {
+	it.mu.Lock()
+	defer it.mu.Unlock()
+	return len(it.queue)
+}
